@@ -14,6 +14,7 @@ import (
 	"fmt"
 	"io"
 	"os"
+	"path/filepath"
 	"sort"
 	"strings"
 	"time"
@@ -447,6 +448,17 @@ func interleaved(c *Cell, tp *tape.Tape) (out []byte) {
 		}
 		if _, err := newFn(flipped(c)); err != nil {
 			return []byte("ERROR: second instance: " + err.Error())
+		}
+		// ... and a third one for a package of ANOTHER module, same formatter
+		// (what a Mocker learns about "its" module must stay its own)
+		if other, err := filepath.Abs(filepath.Join("..", "..", "m2", "q")); err == nil {
+			if _, serr := os.Stat(other); serr == nil {
+				oc := c.config()
+				oc.SrcDir, oc.PkgName = other, ""
+				if _, err := newFn(oc); err != nil {
+					return []byte("ERROR: instance for another module: " + err.Error())
+				}
+			}
 		}
 		var buf bytes.Buffer
 		if err := a.Mock(&buf, c.Names...); err != nil {
